@@ -20,6 +20,7 @@ ASSUMPTIONS = ["tolerance 1e-9 relative to max(1,|y|)", "parameters outside the 
                "known finding K1: the monotone clause fails for exponent 1/10 (documented blend is non-monotone)"]
 ANCHORS = {"rfa.py": [(240, 248), (404, 460), (272, 274), (485, 492), (614, 624)], "funfit.py": [(7, 196)]}
 FORMS_HARNESSES = "all"
+FORMS_SKIP_QUICK = ("long-series",)   # long inputs under every form: thorough tier only (cost)
 EXPLANATION = "output invariants evaluated on every element of a bounded input/configuration lattice"
 
 
